@@ -307,6 +307,8 @@ let run ~seed ~tier oc =
     let (engines, store, ops) = gen_history r ~maxlen in
     emit_history oc r ~stream:"random" ~engines store ops
   done;
+  (* the probe catalogue of the runner (harness/c01_probes.go): orders derived from this seed *)
+  emit oc (Ob [ "stream", JS "probes"; "k", JS "probes"; "seed", JI (rint r 1000000); "rounds", JI (if tier = "thorough" then 12 else 3) ]);
   if !model_violations > 0 then
     prerr_endline (Printf.sprintf "c01: the pool machine configured by the working tree predicts %d history-dependent renders" !model_violations);
   if !unmodelled > 0 then prerr_endline (Printf.sprintf "c01: %d renders predicted unmodelled" !unmodelled)
